@@ -19,10 +19,20 @@ files <= 200 KB from tests/data (and the manifest / resources.arsc / classes.dex
 Mutations: truncation at structural boundaries (found by small harness-side scanners: DEX header/map/id sections,
 ResChunk trees, zip local/central/EOCD records, APK Signing Block pairs) and at random points; single-field edits
 to huge / negative / self-referential counts, sizes and offsets; chunk size 0 or smaller than the header; huge
-uleb128 values; stripping the final NUL of the last string_data_item when string data is last in the file; byte
-flips, splices, insertions, deletions. DEX: Adler-32 + SHA-1 re-fixed for ~85 % of the cases; AXML/ARSC: outer chunk
-size made consistent for ~half. A systematic part enumerates every boundary / every field x every special value
-for the smallest seeds. Thorough tier: atheris coverage-guided campaigns (when atheris is importable).
+uleb128 values; stripping the final NUL of the last string_data_item when string data is last in the file;
+overwriting / deleting the NUL of any string_data_item k (optionally every later NUL too, so that the run continues
+through the following data to EOF); replacing every NUL from a boundary to EOF; appending a non-NUL tail whose length
+(or, after dropping the file's trailing NUL, the length of the resulting unterminated run) is at / around the string
+readers' chunk and length-prefix boundaries (126..130, 254..258, 383..385, 511..513, 1000, 1023..1025, 4096/7) with
+DEX file_size / zip comment length following for half; byte flips, splices, insertions, deletions. Seeds include DEX
+files whose string pools hold strings of those MUTF-8 lengths (1-/2-/3-byte code units, sorting first / last) with
+string data last in the file, AXML / ARSC files with UTF-8 / UTF-16 strings at the 0x80 / 0x100 / 0x7fff / 0x8000
+length-prefix boundaries and APKs with 128 .. 65535 byte archive comments. A spy on the DEX string reader labels the
+cases in which it ran into EOF by the length of the unterminated run ('dex:unterminated-tail>=128', '=k*128', ...).
+DEX: Adler-32 + SHA-1 re-fixed for ~85 % of the cases; AXML/ARSC: outer chunk size made consistent for ~half. A
+systematic part enumerates every boundary / every field x every special value / every string terminator for the
+smallest seeds, and the unterminated last string at every boundary length for every DEX seed that ends with its string
+data. Thorough tier: atheris coverage-guided campaigns (when atheris is importable).
 
 Oracle: each call runs in a sandbox child process (fork) with a CPU-time budget of max(5 s, 2 ms x len(input))
 enforced with setitimer(ITIMER_PROF) (handler records the Python stack, answers and exits) and RLIMIT_CPU as a
@@ -61,7 +71,8 @@ LEVEL = 'exploration'
 RULE = ('case = (target in dex/axml/arsc/apk, bytes) where bytes = a small valid file (generated by the independent '
         'writers or shipped, <= 200 KB) after 1..3 structured mutations (truncation at structural boundaries / random '
         'points, huge or self-referential counts/sizes/offsets, chunk size 0 or < header, huge uleb128, unterminated '
-        'last string, flips/splices/insert/delete), DEX checksums re-fixed for ~85 %, outer chunk size re-fixed for '
+        'last string, NUL of string k overwritten, no NUL from a boundary to EOF, non-NUL tail of chunk-boundary '
+        'length at EOF, flips/splices/insert/delete), DEX checksums re-fixed for ~85 %, outer chunk size re-fixed for '
         '~50 % of AXML/ARSC; plus a systematic enumeration of every boundary / field x special value on the smallest '
         'seeds; thorough adds atheris corpora. non-trivial = the parser got past its header checks (harness-side spy: '
         'DEX MapList reached, AXML string pool reached, ARSC second chunk header reached, APK zip directory read); '
@@ -330,7 +341,36 @@ def _install_spies():
     wrap(axml.StringBlock, '__init__', 'pool')
     wrap(axml.ARSCHeader, '__init__', 'hdr')
     wrap(apk.APK, '_apk_analysis', 'apk.zipread')
+    # measurement only: how long was the run of bytes the DEX string reader consumed when it hit EOF without a NUL
+    orig_rnts = dex.read_null_terminated_string
+
+    def read_null_terminated_string(f):
+        pos = f.tell()
+        try:
+            return orig_rnts(f)
+        except ValueError:
+            cur = f.tell()
+            FLAGS['dex.eofstr'] = max(FLAGS.get('dex.eofstr', 0), f.seek(0, 2) - pos)
+            FLAGS['dex.eofstr_n'] = FLAGS.get('dex.eofstr_n', 0) + 1
+            f.seek(cur)
+            raise
+    dex.read_null_terminated_string = read_null_terminated_string
     dex.MapList._c35_spy = True
+
+
+def tail_labels(flags):
+    """class of the unterminated string the DEX string reader ran into (length of the run from the first byte of the
+    string data to EOF, as observed by the spy; under a reader that hangs there is no observation, only the time-out)"""
+    if not flags.get('dex.eofstr_n'):
+        return []
+    d = flags.get('dex.eofstr', 0)
+    lab = ['dex:unterminated-tail', 'dex:unterminated-tail>=128' if d >= 128 else 'dex:unterminated-tail<128']
+    if d >= 126:
+        lab.append('dex:unterminated-tail:%s' % ('126..130' if d <= 130 else '131..253' if d < 254 else
+                                                  '254..258' if d <= 258 else '259..999' if d < 1000 else '>=1000'))
+    if d and d % 128 == 0:
+        lab.append('dex:unterminated-tail=k*128')
+    return lab
 
 
 def nontrivial(target, flags):
@@ -659,6 +699,7 @@ def evaluate(ctx, target, data, labels=(), origin=None, record=True):
         lab = ['target:' + target, 'outcome:' + oc, 'reached' if nt else 'rejected-at-header'] + list(labels)
         if out.startswith('exc:'):
             lab.append('%s:%s' % (target, out))
+        lab += tail_labels(res.get('flags', {}))
         ctx.case(nontrivial=nt, key=target.encode() + b'\0' + data, labels=lab,
                  sample={'target': target, 'len': len(data), 'origin': origin, 'outcome': out,
                          'cpu_s': res.get('cpu'), 'head': data[:24].hex()})
@@ -735,6 +776,7 @@ def scan_dex(b, extra_offsets=()):
     u32 = list(range(0x20, 0x70, 4))
     u16, uleb, bounds = [], [], [0x20, 0x28, 0x70]
     laststr = None
+    strnuls = []
     if n >= 0x70:
         for (cnt_o, off_o, isz) in ((0x38, 0x3c, 4), (0x40, 0x44, 4), (0x48, 0x4c, 12), (0x50, 0x54, 8),
                                     (0x58, 0x5c, 8), (0x60, 0x64, 32)):
@@ -761,6 +803,13 @@ def scan_dex(b, extra_offsets=()):
                 e = b.find(b'\0', p)
                 if e >= 0:
                     laststr = (last, e)
+                # the terminator of every string (the first 48 and the last 16 in file order when there are more)
+                so_sorted = sorted(set(offs))
+                for so in (so_sorted if len(so_sorted) <= 64 else so_sorted[:48] + so_sorted[-16:]):
+                    _, p = _read_uleb(b, so)
+                    e = b.find(b'\0', p)
+                    if e >= 0:
+                        strnuls.append((so, p, e))
         # class data / static values / code items
         cnt, off = _u32(b, 0x60), _u32(b, 0x64)
         if cnt and off:
@@ -821,14 +870,14 @@ def scan_dex(b, extra_offsets=()):
         if 0 < o < n:
             bounds.append(o)
             uleb.append(o)
-    return _points(b, u32, u16, uleb, bounds, laststr=laststr)
+    return _points(b, u32, u16, uleb, bounds, laststr=laststr, strnuls=strnuls)
 
 
-def _points(b, u32, u16, uleb, bounds, chunks=(), laststr=None):
+def _points(b, u32, u16, uleb, bounds, chunks=(), laststr=None, strnuls=()):
     n = len(b)
     return {'u32': sorted({o for o in u32 if 0 <= o <= n - 4}), 'u16': sorted({o for o in u16 if 0 <= o <= n - 2}),
             'uleb': sorted({o for o in uleb if 0 <= o < n}), 'bounds': sorted({o for o in bounds if 0 < o < n}),
-            'chunks': list(chunks), 'laststr': laststr}
+            'chunks': list(chunks), 'laststr': laststr, 'strnuls': list(strnuls)}
 
 
 CONTAINER_CHUNKS = (0x0002, 0x0003, 0x0200)
@@ -942,7 +991,12 @@ HUGE16 = [0, 1, 0xffff, 0x8000, 0x7fff, 7, 8, 0xfffe]
 HUGE_ULEB = [b'\xff\xff\xff\xff\x0f', b'\xff\xff\xff\xff\x07', b'\x80\x80\x80\x80\x08', b'\xff\xff\xff\x7f',
              b'\xff\xff\x03', b'\x80\x80\x80\x80\x80', b'\x00']
 OPS = ['trunc_bound', 'trunc_random', 'set_u32', 'set_u16', 'chunk_size', 'flip', 'splice', 'insdel', 'uleb',
-       'strip_last_nul']
+       'strip_last_nul', 'strip_nul', 'fill_tail', 'tail']
+# lengths at and around the sizes at which a string reader changes its path: 128-byte read chunks (DEX
+# read_null_terminated_string) and their multiples, the 1 -> 2 byte length prefixes (0x80 / 0x100), several chunks
+TAIL_LENGTHS = [1, 2, 126, 127, 128, 129, 130, 254, 255, 256, 257, 258, 383, 384, 385, 511, 512, 513, 1000, 1023,
+                1024, 1025, 4096, 4097]
+NONNUL = (0x41, 0xff, 0x80, 0x01)
 
 
 def special32(buf, pos, sel):
@@ -965,6 +1019,8 @@ def apply_op(fmt, buf, pts, op):
         name = 'set_u32'
     if name == 'strip_last_nul' and not pts.get('laststr'):
         name = 'trunc_bound'
+    if name == 'strip_nul' and not pts.get('strnuls'):
+        name = 'fill_tail'
     if name == 'set_u16' and not pts['u16']:
         name = 'set_u32'
     if name == 'set_u32' and not pts['u32']:
@@ -1034,6 +1090,63 @@ def apply_op(fmt, buf, pts, op):
         # cut the file so that the last string has no terminator before EOF (keep 0..k of its bytes)
         keep = nul if c % 3 else max(start + 1, nul - (a % 4))
         return buf[:max(1, keep)], name
+    if name == 'strip_nul':
+        # the terminator of string k (any k; the last three strings in the file get half of the picks) is overwritten
+        # with a non-NUL byte: the string runs into whatever follows. mode 2: every later NUL byte goes too, so that
+        # the run continues through the following data to EOF; mode 3: the terminator is deleted instead.
+        sn = pts['strnuls']
+        so, p, e = sn[-1 - (a % min(3, len(sn)))] if (b_ >> 4) & 1 else sn[a % len(sn)]
+        if e >= n:
+            return buf, 'noop'
+        fill = NONNUL[(b_ >> 1) & 3]
+        mode = c % 4
+        if mode == 3:
+            del buf[e:e + 1]
+            if not buf:
+                buf = bytearray(b'\0')
+        elif mode == 2:
+            buf[e:] = bytes(buf[e:]).replace(b'\0', bytes([fill]))
+        else:
+            buf[e] = fill
+        return buf, name
+    if name == 'fill_tail':
+        # no NUL byte from a structural boundary / random point to EOF (whatever is NUL- or zero-terminated there
+        # now runs to the end of the input)
+        p = pts['bounds'][a % len(pts['bounds'])] if (pts['bounds'] and c % 3) else a % n
+        buf[p:] = bytes(buf[p:]).replace(b'\0', bytes([NONNUL[(b_ >> 1) & 3]]))
+        return buf, name
+    if name == 'tail':
+        # N non-NUL bytes appended at EOF, N at / around the chunk and length-prefix boundaries. mode 0: plain append;
+        # other modes: the trailing NUL byte(s) of the file are dropped first (string data last in a DEX file: the
+        # last string loses its terminator) and N is chosen so that the unterminated run itself has a boundary length
+        T = TAIL_LENGTHS[a % len(TAIL_LENGTHS)]
+        mode = c % 4
+        add = T
+        if mode:
+            ls = pts.get('laststr')
+            if fmt == 'dex' and ls and ls[1] == n - 1:
+                del buf[n - 1:]
+                _, p = _read_uleb(buf, ls[0])
+                add = T - (len(buf) - p)
+            else:
+                k = 0
+                while len(buf) > 1 and k < 4 and buf[-1] == 0:
+                    buf.pop()
+                    k += 1
+                # distance from the last NUL left in the file, + 0..2 bytes for a length prefix
+                add = T - (len(buf) - 1 - buf.rfind(b'\0')) + (b_ >> 8) % 3
+            if add < 0:
+                add = T
+        buf += bytes([NONNUL[(b_ >> 1) & 3]]) * add
+        if b_ & 1:
+            # the declared size follows: DEX file_size; zip: the appended bytes become the archive comment
+            if fmt == 'dex' and len(buf) >= 0x24:
+                struct.pack_into('<I', buf, 0x20, len(buf))
+            elif fmt == 'apk':
+                eo = buf.rfind(b'PK\x05\x06')
+                if eo >= 0 and eo + 22 <= len(buf):
+                    struct.pack_into('<H', buf, eo + 20, min(0xffff, len(buf) - eo - 22))
+        return buf, name
     return buf, 'noop'
 
 
@@ -1170,6 +1283,26 @@ def build_seeds(fmt, seedval, tier):
             seeds.append(_mk('dex', 'gen%d:%s' % (i, 'default' if order is None else ('strlast' if order is orders[1]
                                                                                      else 'reversed')),
                              data, sorted(set(df.offsets.values()))))
+        # string pools with strings whose MUTF-8 length sits at / around the string reader's chunk boundaries
+        # (127/128/129, 255/256, ..., 1000+: several chunks), sorting last / first / in the middle of the pool, 1-, 2-
+        # and 3-byte code units; string data last in the file for 8 of 10 (the terminator of the last string is then the
+        # last byte of the file), default layout (other sections and the map follow the strings) for the rest
+        picks = _examples(st.lists(st.tuples(st.sampled_from(TAIL_LENGTHS[2:]), st.sampled_from(_BOUNDARY_FIRST),
+                                             st.sampled_from(_BOUNDARY_ALPHA)), min_size=1, max_size=4),
+                          10, seedval * 13 + 7)
+        lmodels = _examples(dexstrat.dex_models(min_classes=1, max_classes=2, static_values=True, max_name=4), 10,
+                            seedval * 13 + 8)
+        for i, df in enumerate(lmodels):
+            forced = (TAIL_LENGTHS[2 + (seedval * 5 + i * 7) % (len(TAIL_LENGTHS) - 2)],
+                      _BOUNDARY_FIRST[-1 - i % 2] if i % 4 != 3 else _BOUNDARY_FIRST[0], _BOUNDARY_ALPHA[i % len(_BOUNDARY_ALPHA)])
+            texts = [boundary_text(n, first, alpha) for (n, first, alpha) in [forced] + list(picks[i % len(picks)])]
+            df.extra_refs = list(df.extra_refs) + [('s', t) for t in texts]
+            strlast = i % 5 != 4
+            data = df.build(section_order=orders[1] if strlast else None)
+            if strlast:
+                data = dexgen.fix_checksums(_strip_tail_padding(data))
+            seeds.append(_mk('dex', 'genL%d:%s' % (i, 'strlast' if strlast else 'default'), data,
+                             sorted(set(df.offsets.values()))))
         for rel, p, sz in shipped:
             if rel.lower().endswith('.dex') and (big or sz <= 4096):
                 with open(p, 'rb') as f:
@@ -1188,6 +1321,19 @@ def build_seeds(fmt, seedval, tier):
                  if len(axmlgen.build(d)) > 40000][:1]
         for i, d in enumerate(docs):
             seeds.append(_mk('axml', 'gen%d' % i, axmlgen.build(d)))
+        # attribute strings at / around the 1 -> 2 byte (UTF-8: 0x80 chars or bytes) and 1 -> 2 word (UTF-16: 0x8000
+        # units) length-prefix boundaries
+        for nm, utf8, lens in (('genL-utf8', True, (127, 128, 129, 255, 256, 257, 1000, 0x7fff)),
+                               ('genL-utf16', False, (127, 128, 129, 255, 256, 0x7fff, 0x8000))):
+            kids = [axmlgen.E('meta-data', attrs=[axmlgen.a_str('name', 'k%d' % j, with_resid=True),
+                                                  axmlgen.a_str('value', boundary_text(
+                                                      n, 'v', _BOUNDARY_ALPHA[j % 2] if utf8 else 'xyz', units=not utf8),
+                                                      with_resid=True)])
+                    for j, n in enumerate(lens)]
+            if utf8:    # 64 two-byte chars: character count below, byte count at the boundary
+                kids.append(axmlgen.E('meta-data', attrs=[axmlgen.a_str('value', '\u00e9' * 64, with_resid=True)]))
+            root = axmlgen.manifest_root('com.example.longstrings', children=[axmlgen.E('application', children=kids)])
+            seeds.append(_mk('axml', nm, axmlgen.build_axml(root, utf8=utf8)))
         from vf.gen import zipgen
         seeds.append(_mk('axml', 'zipgen.MINIMAL_MANIFEST', zipgen.MINIMAL_MANIFEST))
         for rel, p, sz in shipped:
@@ -1208,6 +1354,18 @@ def build_seeds(fmt, seedval, tier):
         tabs = _examples(arscgen.tables(cycles=False, max_packages=2, max_types=4, max_entries=6, max_configs=3),
                          16, seedval * 13 + 3)
         seeds.append(_mk('arsc', 'simple_table', arscgen.build(arscgen.simple_table())))
+        # string values at / around the length-prefix boundaries of the value pool (UTF-8 and UTF-16)
+        for nm, utf8, lens in (('genL-utf8', True, (127, 128, 129, 255, 256, 257, 1000, 0x7fff)),
+                               ('genL-utf16', False, (127, 128, 129, 255, 256, 0x7fff, 0x8000))):
+            t = arscgen.simple_table()
+            t['utf8'] = utf8
+            t['pool_extra'] = ['\u00e9' * 64] if utf8 else []
+            t['packages'][0]['types'][0] = {'name': 'string', 'entry_count': len(lens), 'chunks': [
+                {'config': arscgen.make_config(), 'offsets': '32', 'entries': [
+                    [j, {'kind': 'plain', 'key': 'long%d' % j, 'value': [arscgen.TYPE_STRING, boundary_text(
+                        n, 'v', _BOUNDARY_ALPHA[j % 2] if utf8 else 'xyz', units=not utf8)]}]
+                    for j, n in enumerate(lens)]}]}
+            seeds.append(_mk('arsc', nm, arscgen.build(t)))
         for i, t in enumerate(tabs):
             seeds.append(_mk('arsc', 'gen%d' % i, arscgen.build(t)))
         seen = set()
@@ -1237,6 +1395,14 @@ def build_seeds(fmt, seedval, tier):
             except sigblock.SigBlockError:
                 data = z
             seeds.append(_mk('apk', 'gen%d' % i, data))
+        # archive comments of boundary lengths (the EOCD record is searched backwards through the comment)
+        for j, n in enumerate((128, 256, 4097, 0xffff)):
+            z = zipgen.build_apk([('classes.dex', dexes[j % len(dexes)], zipgen.DEFLATED)], comment=b'c' * n)
+            try:
+                data = sigblock.sign_zip(z, pls[j % len(pls)][0], 0) if j % 2 else z
+            except sigblock.SigBlockError:
+                data = z
+            seeds.append(_mk('apk', 'genC%d:comment%d' % (j, n), data))
         picked = 0
         for k, (rel, data) in enumerate(apks):
             small = len(data) <= 17100
@@ -1258,6 +1424,34 @@ def build_seeds(fmt, seedval, tier):
         raise HarnessError('no %s seeds' % fmt)
     _SEED_CACHE[key] = seeds
     return seeds
+
+
+_BOUNDARY_FIRST = ['!', 'M', 'b', '\u00e9', '~', '\uffee']          # sorts first ... last in a DEX string pool
+_BOUNDARY_ALPHA = ['abcdefghij', 'a\u00e9b\u4e2d', '\u4e2d\u6587', 'x\x00y', '\u00e9\u00fc']
+
+
+def boundary_text(n, first, alpha, units=False):
+    """a string of exactly n encoded bytes (MUTF-8 as in a DEX string_data_item / UTF-8 in a resource string pool:
+    identical for the alphabets used here except U+0000 = C0 80) or, with units=True, of n UTF-16 code units: `first`,
+    then the characters of `alpha` in turn, padded with 'a'"""
+    def cost(ch):
+        if units:
+            return 1
+        c = ord(ch)
+        return 2 if c == 0 else 1 if c < 0x80 else 2 if c < 0x800 else 3
+    out, left, i = [], n, 0
+    for ch in first:
+        if cost(ch) <= left:
+            out.append(ch)
+            left -= cost(ch)
+    while left > 0:
+        ch = alpha[i % len(alpha)]
+        i += 1
+        if cost(ch) > left:
+            ch = 'a'
+        out.append(ch)
+        left -= cost(ch)
+    return ''.join(out)
 
 
 def _strip_tail_padding(data):
@@ -1419,6 +1613,13 @@ def _run_sys(ctx, fmt):
     for s in seeds:
         evaluate(ctx, fmt, s['data'], labels=['sys:unmodified'], origin={'seed': s['name'], 'ops': 'none'})
     small = seeds[:10 if ctx.tier == 'quick' else 24]
+    for s in seeds[len(small):]:
+        # unterminated strings of boundary lengths at EOF: on every seed that ends with its string data
+        if fmt == 'dex' and len(s['data']) <= 65536:
+            for lab, data in _sys_tail_cases(s):
+                if _over_budget(ctx, cap):
+                    break
+                evaluate(ctx, fmt, data, labels=['sys:' + lab], origin={'seed': s['name'], 'ops': lab})
     gens = [_sys_cases(s) for s in small]
     alive = list(range(len(gens)))
     while alive and not _over_budget(ctx, cap):
@@ -1446,6 +1647,13 @@ def _sys_cases(seed):
         start, nul = pts['laststr']
         yield 'strip-last-nul', fix(data[:nul])
         yield 'strip-last-nul', fix(data[:max(start + 1, nul - 1)])
+    yield from _sys_tail_cases(seed)
+    for (so, p, e) in pts.get('strnuls', ()):
+        b = bytearray(data)
+        b[e] = 0x41
+        yield 'strip-nul-k', fix(b)
+        b[e:] = bytes(b[e:]).replace(b'\0', b'\x41')
+        yield 'strip-nul-k+fill-to-eof', fix(b)
     for (off, t, hs, sz) in pts['chunks']:
         for v in (0, 4, 7, 8, max(0, hs - 1)):
             b = bytearray(data)
@@ -1476,6 +1684,31 @@ def _sys_cases(seed):
             b = bytearray(data)
             struct.pack_into('<H', b, pos, v)
             yield 'field16', fix(b)
+
+
+def _sys_tail_cases(seed):
+    """DEX seeds whose last byte is the terminator of the last string: that string without terminator and extended to
+    every boundary length (file_size and checksums consistent); every format: a non-NUL tail of every boundary length"""
+    fmt, data, pts = seed['fmt'], seed['data'], seed['pts']
+    ls = pts.get('laststr')
+    if fmt == 'dex' and ls and ls[1] == len(data) - 1:
+        _, p = _read_uleb(data, ls[0])
+        have = len(data) - 1 - p
+        for T in TAIL_LENGTHS:
+            if T >= have:
+                b = bytearray(data[:-1]) + b'\x41' * (T - have)
+                struct.pack_into('<I', b, 0x20, len(b))
+                yield 'unterminated-tail', bytes(fix_dex(b))
+    elif fmt != 'dex':
+        for T in TAIL_LENGTHS[2::3]:
+            b = bytearray(data) + b'\x41' * T
+            if fmt == 'apk':
+                eo = b.rfind(b'PK\x05\x06')
+                if eo >= 0 and eo + 22 <= len(b):
+                    struct.pack_into('<H', b, eo + 20, min(0xffff, len(b) - eo - 22))
+            else:
+                struct.pack_into('<I', b, 4, len(b))
+            yield 'tail', bytes(b)
 
 
 # -----------------------------------------------------------------------------------------------------
